@@ -320,7 +320,7 @@ def harness(config, flavour, name='xrlmon', extra_src=(), extra_flags=(), cxx=Fa
         return harness_meson(config, name)
     if flavour == 'meson-tsan':
         return harness_meson(config, name, sanitize='thread')
-    if flavour in ('meson-release', 'meson-uchar', 'meson-static'):
+    if flavour in ('meson-release', 'meson-uchar', 'meson-static', 'meson-c11'):
         return harness_meson(config, name, variant=flavour[6:])
     L = lib(config, flavour)
     st = sigtab()
@@ -442,8 +442,8 @@ def stale_inline(config):
 # s390x, riscv64), emulated here with -funsigned-char.  The library must be the same function of its arguments in all of them.
 # 'static': the archive (default_library=static) linked into an executor that references only the functions it calls (harness/xrlexec.c).
 MESON_VARIANTS = {None: [], 'release': ['-Dbuildtype=release', '-Db_ndebug=true'], 'uchar': ['-Dc_args=-funsigned-char', '-Dcpp_args=-funsigned-char'],
-                  'static': ['-Ddefault_library=static']}
-PROJECT_BUILDS = ('meson', 'meson-release', 'meson-uchar')          # shared libraries: any harness program, ctypes
+                  'static': ['-Ddefault_library=static'], 'c11': ['-Dc_std=c11']}          # c11: a strict ISO language standard (__STRICT_ANSI__: no GNU extensions of libc visible)
+PROJECT_BUILDS = ('meson', 'meson-release', 'meson-uchar', 'meson-c11')          # shared libraries: any harness program, ctypes
 EXEC_BUILDS = PROJECT_BUILDS + ('meson-static',)                       # for the executor (execlib.Lib)
 
 
